@@ -1,17 +1,43 @@
 //! C01 harness: k-fold splitting (fold, iter_fold, sample_chunks, cross_validate) on identity-tagged
-//! datasets in several storage layouts; emits Coq cases for C01/Corr.v and evaluates a Rust-side
-//! reference oracle on larger inputs.
+//! datasets in many storage layouts, with f64 and f32 elements; emits Coq cases for C01/Corr.v and
+//! evaluates a Rust-side reference oracle on larger inputs.
 use linfa::dataset::{DatasetBase, TargetDim};
 use linfa::traits::{Fit, PredictInplace};
 use linfa::Error;
 use ndarray::{
-    arr0, Array, Array1, Array2, ArrayBase, ArrayView, ArrayView1, ArrayView2, Axis, Data, Dimension, Ix1, Ix2,
-    ShapeBuilder, Slice,
+    arr0, s, Array, Array1, Array2, ArrayBase, ArrayView1, ArrayView2, ArrayViewMut, ArrayViewMut1, ArrayViewMut2,
+    Axis, Data, Dimension, Ix1, Ix2, ShapeBuilder, Slice,
 };
 use std::panic::AssertUnwindSafe;
 use vh::*;
 
 const JUNK: f64 = 7_777_777.0;
+const JUNK_BASE: f64 = 7_000_000.0;
+
+/// the two element / score types: every conversion used is exact on the values that occur, except
+/// `of_u64` (Rust's `as` cast: round to nearest even, like of_N of the Coq instance)
+trait Fl: linfa::Float + std::fmt::Debug {
+    const IS32: bool;
+    fn of64(x: f64) -> Self;
+    fn to64(self) -> f64;
+    fn of_u64(x: u64) -> Self;
+    /// x rounded to this type, as f64
+    fn round64(x: f64) -> f64 {
+        Self::of64(x).to64()
+    }
+}
+impl Fl for f64 {
+    const IS32: bool = false;
+    fn of64(x: f64) -> f64 { x }
+    fn to64(self) -> f64 { self }
+    fn of_u64(x: u64) -> f64 { x as f64 }
+}
+impl Fl for f32 {
+    const IS32: bool = true;
+    fn of64(x: f64) -> f32 { x as f32 }
+    fn to64(self) -> f64 { self as f64 }
+    fn of_u64(x: u64) -> f32 { x as f32 }
+}
 
 #[derive(Clone, Debug, PartialEq)]
 struct Arr {
@@ -19,9 +45,12 @@ struct Arr {
     cols: usize,
     data: Vec<f64>,
 }
-fn arr_of<S: Data<Elem = f64>, D: Dimension>(a: &ArrayBase<S, D>) -> Arr {
+fn arr_of<F: Fl, S: Data<Elem = F>, D: Dimension>(a: &ArrayBase<S, D>) -> Arr {
     let sh = a.shape();
-    Arr { rows: sh[0], cols: if sh.len() > 1 { sh[1] } else { 1 }, data: a.iter().cloned().collect() }
+    Arr { rows: sh[0], cols: if sh.len() > 1 { sh[1] } else { 1 }, data: a.iter().map(|x| x.to64()).collect() }
+}
+fn flat64<F: Fl, S: Data<Elem = F>, D: Dimension>(a: &ArrayBase<S, D>) -> Vec<f64> {
+    a.iter().map(|x| x.to64()).collect()
 }
 fn tagv(x: f64) -> u64 {
     if x.is_finite() && x >= 0.0 && x.fract() == 0.0 && x < 1e15 { x as u64 } else { 999_999_999_999 }
@@ -52,21 +81,139 @@ fn copt(x: Option<String>) -> String {
     }
 }
 
+// ---------------------------------------------------------------------------------------------
+// storage layouts of an array of logical shape (n, w): the owned parent allocation and the view into it
+const KINDS: [&str; 8] = ["c_order", "fortran", "transposed", "row_step2", "col_range", "row_range", "rows_reversed", "cols_reversed"];
+
+fn fill_junk(buf: &mut [f64]) {
+    for (i, x) in buf.iter_mut().enumerate() {
+        if x.is_nan() {
+            *x = JUNK_BASE + i as f64;
+        }
+    }
+}
+/// parent allocation for the logical row-major `data` of shape (n, w); every cell that does not belong
+/// to the view carries the unique junk tag JUNK_BASE + (its position in memory)
+fn parent2(data: &[f64], n: usize, w: usize, kind: usize) -> Array2<f64> {
+    let at = |r: usize, c: usize| data[r * w + c];
+    let mut p = match kind {
+        0 => Array2::from_shape_fn((n, w), |(r, c)| at(r, c)),
+        1 => Array2::from_shape_fn((n, w).f(), |(r, c)| at(r, c)),
+        2 => Array2::from_shape_fn((w, n), |(c, r)| at(r, c)),
+        3 => Array2::from_shape_fn((2 * n + 1, w), |(r, c)| if r % 2 == 1 { at(r / 2, c) } else { f64::NAN }),
+        4 => Array2::from_shape_fn((n, w + 2), |(r, c)| if c >= 1 && c <= w { at(r, c - 1) } else { f64::NAN }),
+        5 => Array2::from_shape_fn((n + 3, w), |(r, c)| if r >= 2 && r < 2 + n { at(r - 2, c) } else { f64::NAN }),
+        6 => Array2::from_shape_fn((n, w), |(r, c)| at(n - 1 - r, c)),
+        _ => Array2::from_shape_fn((n, w), |(r, c)| at(r, w - 1 - c)),
+    };
+    fill_junk(p.as_slice_memory_order_mut().unwrap());
+    p
+}
+fn view2<'a>(p: &'a mut Array2<f64>, n: usize, w: usize, kind: usize) -> ArrayViewMut2<'a, f64> {
+    match kind {
+        0 | 1 => p.view_mut(),
+        2 => p.view_mut().reversed_axes(),
+        3 => p.slice_mut(s![1..;2, ..]),
+        4 => p.slice_mut(s![.., 1..1 + w]),
+        5 => p.slice_mut(s![2..2 + n, ..]),
+        6 => p.slice_mut(s![..;-1, ..]),
+        _ => p.slice_mut(s![.., ..;-1]),
+    }
+}
+/// one-dimensional arrays know four of the kinds: 0 contiguous, 3 every second cell, 5 a range, 6 reversed
+fn parent1(data: &[f64], n: usize, kind: usize) -> Array1<f64> {
+    let mut p = match kind {
+        3 => Array1::from_shape_fn(2 * n + 1, |r| if r % 2 == 1 { data[r / 2] } else { f64::NAN }),
+        5 => Array1::from_shape_fn(n + 3, |r| if r >= 2 && r < 2 + n { data[r - 2] } else { f64::NAN }),
+        6 => Array1::from_shape_fn(n, |r| data[n - 1 - r]),
+        _ => Array1::from_shape_fn(n, |r| data[r]),
+    };
+    fill_junk(p.as_slice_memory_order_mut().unwrap());
+    p
+}
+fn view1<'a>(p: &'a mut Array1<f64>, n: usize, kind: usize) -> ArrayViewMut1<'a, f64> {
+    match kind {
+        3 => p.slice_mut(s![1..;2]),
+        5 => p.slice_mut(s![2..2 + n]),
+        6 => p.slice_mut(s![..;-1]),
+        _ => p.view_mut(),
+    }
+}
+/// where ndarray put the view: offset of element (0, ..) from the start of the parent's memory and the
+/// strides, in elements (second stride 0 for one axis)
+#[derive(Clone, Debug)]
+struct Desc {
+    off: usize,
+    s0: isize,
+    s1: isize,
+}
+fn describe<D: Dimension>(base: *const f64, v: &ArrayViewMut<f64, D>) -> Desc {
+    let st = v.strides();
+    Desc { off: (v.as_ptr() as usize - base as usize) / std::mem::size_of::<f64>(), s0: st[0], s1: if st.len() > 1 { st[1] } else { 0 } }
+}
+fn mem<D: Dimension>(p: &Array<f64, D>) -> Vec<f64> {
+    p.as_slice_memory_order().unwrap().to_vec()
+}
+
 trait TD: TargetDim {
-    fn shape(rows: usize, tw: usize) -> Self;
     const IS1: bool;
+    fn shape(rows: usize, tw: usize) -> Self;
+    /// the layout kind a target array of this dimension uses when `kind` is asked for
+    fn tkind(kind: usize) -> usize;
+    fn tparent(data: &[f64], n: usize, tw: usize, kind: usize) -> Array<f64, Self>;
+    fn tview<'a>(p: &'a mut Array<f64, Self>, n: usize, tw: usize, kind: usize) -> ArrayViewMut<'a, f64, Self>;
+    fn cv_call<F: Fl, D, S>(ds: &mut DatasetBase<ArrayBase<D, Ix2>, ArrayBase<S, Self>>, k: usize, params: &[MockP<F>], spec: &CvSpec, single: bool) -> CvRes
+    where
+        D: ndarray::DataMut<Elem = F>,
+        S: ndarray::DataMut<Elem = F>;
 }
 impl TD for Ix1 {
+    const IS1: bool = true;
     fn shape(rows: usize, _tw: usize) -> Ix1 {
         ndarray::Ix1(rows)
     }
-    const IS1: bool = true;
+    fn tkind(kind: usize) -> usize {
+        [0, 0, 6, 3, 5, 5, 6, 3][kind]
+    }
+    fn tparent(data: &[f64], n: usize, _tw: usize, kind: usize) -> Array1<f64> {
+        parent1(data, n, kind)
+    }
+    fn tview<'a>(p: &'a mut Array1<f64>, n: usize, _tw: usize, kind: usize) -> ArrayViewMut1<'a, f64> {
+        view1(p, n, kind)
+    }
+    fn cv_call<F: Fl, D, S>(ds: &mut DatasetBase<ArrayBase<D, Ix2>, ArrayBase<S, Ix1>>, k: usize, params: &[MockP<F>], spec: &CvSpec, single: bool) -> CvRes
+    where
+        D: ndarray::DataMut<Elem = F>,
+        S: ndarray::DataMut<Elem = F>,
+    {
+        if single {
+            conv_cv(ds.cross_validate_single(k, params, |p, t| eval1(spec, p, t)))
+        } else {
+            conv_cv(ds.cross_validate(k, params, |p, t| eval1(spec, p, t).map(arr0)))
+        }
+    }
 }
 impl TD for Ix2 {
+    const IS1: bool = false;
     fn shape(rows: usize, tw: usize) -> Ix2 {
         ndarray::Ix2(rows, tw)
     }
-    const IS1: bool = false;
+    fn tkind(kind: usize) -> usize {
+        kind
+    }
+    fn tparent(data: &[f64], n: usize, tw: usize, kind: usize) -> Array2<f64> {
+        parent2(data, n, tw, kind)
+    }
+    fn tview<'a>(p: &'a mut Array2<f64>, n: usize, tw: usize, kind: usize) -> ArrayViewMut2<'a, f64> {
+        view2(p, n, tw, kind)
+    }
+    fn cv_call<F: Fl, D, S>(ds: &mut DatasetBase<ArrayBase<D, Ix2>, ArrayBase<S, Ix2>>, k: usize, params: &[MockP<F>], spec: &CvSpec, _single: bool) -> CvRes
+    where
+        D: ndarray::DataMut<Elem = F>,
+        S: ndarray::DataMut<Elem = F>,
+    {
+        conv_cv(ds.cross_validate(k, params, |p, t| eval2(spec, p, t)))
+    }
 }
 
 #[derive(Clone, Debug)]
@@ -88,11 +235,11 @@ impl DataSet {
         let tgts = (0..n * tw).map(|i| (tb + i as u64) as f64).collect();
         DataSet { n, w, tdim, tw, recs, tgts }
     }
-    fn rec_owned(&self) -> Array2<f64> {
-        Array2::from_shape_vec((self.n, self.w), self.recs.clone()).unwrap()
+    fn rec_owned<F: Fl>(&self) -> Array2<F> {
+        Array2::from_shape_vec((self.n, self.w), self.recs.iter().map(|x| F::of64(*x)).collect()).unwrap()
     }
-    fn tgt_owned<I: TD>(&self) -> Array<f64, I> {
-        Array::from_shape_vec(I::shape(self.n, self.tw), self.tgts.clone()).unwrap()
+    fn tgt_owned<F: Fl, I: TD>(&self) -> Array<F, I> {
+        Array::from_shape_vec(I::shape(self.n, self.tw), self.tgts.iter().map(|x| F::of64(*x)).collect()).unwrap()
     }
     fn rec_fortran(&self) -> Array2<f64> {
         let mut v = Vec::with_capacity(self.n * self.w);
@@ -123,21 +270,21 @@ impl DataSet {
         Array::from_shape_vec(I::shape(2 * self.n + 1, self.tw), v).unwrap()
     }
     /// contiguous parent: 2 junk rows, the data, 1 junk row
-    fn rec_range_parent(&self) -> Array2<f64> {
-        let mut v = vec![JUNK; 2 * self.w];
-        v.extend_from_slice(&self.recs);
-        v.extend(vec![JUNK; self.w]);
+    fn rec_range_parent<F: Fl>(&self) -> Array2<F> {
+        let mut v = vec![F::of64(JUNK); 2 * self.w];
+        v.extend(self.recs.iter().map(|x| F::of64(*x)));
+        v.extend(vec![F::of64(JUNK); self.w]);
         Array2::from_shape_vec((self.n + 3, self.w), v).unwrap()
     }
-    fn tgt_range_parent<I: TD>(&self) -> Array<f64, I> {
-        let mut v = vec![JUNK; 2 * self.tw];
-        v.extend_from_slice(&self.tgts);
-        v.extend(vec![JUNK; self.tw]);
+    fn tgt_range_parent<F: Fl, I: TD>(&self) -> Array<F, I> {
+        let mut v = vec![F::of64(JUNK); 2 * self.tw];
+        v.extend(self.tgts.iter().map(|x| F::of64(*x)));
+        v.extend(vec![F::of64(JUNK); self.tw]);
         Array::from_shape_vec(I::shape(self.n + 3, self.tw), v).unwrap()
     }
-    fn range_outside_ok<I: TD>(&self, pr: &Array2<f64>, pt: &Array<f64, I>) -> bool {
-        let a: Vec<f64> = pr.iter().cloned().collect();
-        let b: Vec<f64> = pt.iter().cloned().collect();
+    fn range_outside_ok<F: Fl, I: TD>(&self, pr: &Array2<F>, pt: &Array<F, I>) -> bool {
+        let a = flat64(pr);
+        let b = flat64(pt);
         let (w, tw, n) = (self.w, self.tw, self.n);
         a[..2 * w].iter().all(|x| *x == JUNK)
             && a[(2 + n) * w..].iter().all(|x| *x == JUNK)
@@ -154,12 +301,13 @@ fn conv_fold<I: TD>(v: Vec<(DatasetBase<Array2<f64>, Array<f64, I>>, DatasetBase
     v.iter().map(|(tr, va)| [arr_of(tr.records()), arr_of(tr.targets()), arr_of(va.records()), arr_of(va.targets())]).collect()
 }
 
-const FOLD_LAYOUTS: [&str; 4] = ["owned", "view", "strided_view", "fortran"];
+const FOLD_LAYOUTS: [&str; 8] =
+    ["owned", "view", "strided_view", "fortran", "transposed_view", "col_range_view", "rows_reversed_view", "cols_reversed_records_stepped_targets"];
 fn run_fold<I: TD>(d: &DataSet, k: usize, layout: usize) -> FoldOut {
     let r = guarded(AssertUnwindSafe(|| match layout {
-        0 => conv_fold(DatasetBase::new(d.rec_owned(), d.tgt_owned::<I>()).fold(k)),
+        0 => conv_fold(DatasetBase::new(d.rec_owned::<f64>(), d.tgt_owned::<f64, I>()).fold(k)),
         1 => {
-            let (r, t) = (d.rec_owned(), d.tgt_owned::<I>());
+            let (r, t) = (d.rec_owned::<f64>(), d.tgt_owned::<f64, I>());
             let ds = DatasetBase::new(r.view(), t.view());
             conv_fold(ds.fold(k))
         }
@@ -170,9 +318,24 @@ fn run_fold<I: TD>(d: &DataSet, k: usize, layout: usize) -> FoldOut {
             let ds = DatasetBase::new(rv, tv);
             conv_fold(ds.fold(k))
         }
-        _ => {
-            let t = d.tgt_owned::<I>();
+        3 => {
+            let t = d.tgt_owned::<f64, I>();
             conv_fold(DatasetBase::new(d.rec_fortran(), t).fold(k))
+        }
+        l => {
+            let (rk, tk) = match l {
+                4 => (2, 2),
+                5 => (4, 4),
+                6 => (6, 6),
+                _ => (7, 3),
+            };
+            let tk = I::tkind(tk);
+            let mut pr = parent2(&d.recs, d.n, d.w, rk);
+            let mut pt = I::tparent(&d.tgts, d.n, d.tw, tk);
+            let rv = view2(&mut pr, d.n, d.w, rk);
+            let tv = I::tview(&mut pt, d.n, d.tw, tk);
+            let ds = DatasetBase::new(rv.view(), tv.view());
+            conv_fold(ds.fold(k))
         }
     }));
     r.ok()
@@ -201,12 +364,12 @@ where
 fn run_iter_fold<I: TD>(d: &DataSet, k: usize, layout: usize) -> Option<IfOut> {
     let r = guarded(AssertUnwindSafe(|| match layout {
         0 => {
-            let mut ds = DatasetBase::new(d.rec_owned(), d.tgt_owned::<I>());
+            let mut ds = DatasetBase::new(d.rec_owned::<f64>(), d.tgt_owned::<f64, I>());
             let items = iter_fold_on(&mut ds, k);
             IfOut { items, rec: ds.records().iter().cloned().collect(), tgt: ds.targets().iter().cloned().collect(), outside_ok: true }
         }
         1 => {
-            let (mut r, mut t) = (d.rec_owned(), d.tgt_owned::<I>());
+            let (mut r, mut t) = (d.rec_owned::<f64>(), d.tgt_owned::<f64, I>());
             let items = {
                 let mut ds = DatasetBase::new(r.view_mut(), t.view_mut());
                 iter_fold_on(&mut ds, k)
@@ -214,7 +377,7 @@ fn run_iter_fold<I: TD>(d: &DataSet, k: usize, layout: usize) -> Option<IfOut> {
             IfOut { items, rec: r.iter().cloned().collect(), tgt: t.iter().cloned().collect(), outside_ok: true }
         }
         _ => {
-            let (mut pr, mut pt) = (d.rec_range_parent(), d.tgt_range_parent::<I>());
+            let (mut pr, mut pt) = (d.rec_range_parent::<f64>(), d.tgt_range_parent::<f64, I>());
             let items = {
                 let rv = pr.slice_axis_mut(Axis(0), Slice::from(2..2 + d.n));
                 let tv = pt.slice_axis_mut(Axis(0), Slice::from(2..2 + d.n));
@@ -238,12 +401,12 @@ fn run_iter_fold<I: TD>(d: &DataSet, k: usize, layout: usize) -> Option<IfOut> {
 fn run_chunks<I: TD>(d: &DataSet, size: usize, view: bool) -> Option<Vec<[Arr; 2]>> {
     guarded(AssertUnwindSafe(|| {
         if view {
-            let (r, t) = (d.rec_owned(), d.tgt_owned::<I>());
+            let (r, t) = (d.rec_owned::<f64>(), d.tgt_owned::<f64, I>());
             let ds = DatasetBase::new(r.view(), t.view());
             let v: Vec<[Arr; 2]> = ds.sample_chunks(size).map(|c| [arr_of(c.records()), arr_of(c.targets())]).collect();
             v
         } else {
-            let ds = DatasetBase::new(d.rec_owned(), d.tgt_owned::<I>());
+            let ds = DatasetBase::new(d.rec_owned::<f64>(), d.tgt_owned::<f64, I>());
             let v: Vec<[Arr; 2]> = ds.sample_chunks(size).map(|c| [arr_of(c.records()), arr_of(c.targets())]).collect();
             v
         }
@@ -252,7 +415,9 @@ fn run_chunks<I: TD>(d: &DataSet, size: usize, view: bool) -> Option<Vec<[Arr; 2
 }
 
 // ---------------------------------------------------------------------------------------------
-// cross_validate with mock models (the same functions as C01/Corr.v mock_fit / mock_predict / mock_eval)
+// cross_validate with mock models (the same functions as C01/Corr.v mock_fit / mock_predict / mock_eval),
+// generic in the element / score type.  All numbers of a CvSpec are stored as f64 and are exactly
+// representable in the type they are used with.
 #[derive(Clone, Debug)]
 struct CvSpec {
     cms: Vec<f64>,
@@ -260,22 +425,26 @@ struct CvSpec {
     fail_fit: Vec<(usize, u64, u64)>, // (model, state, error id)
     fail_eval: Vec<(f64, u64)>,       // (first predicted value, error id)
 }
-struct MockP {
+struct MockP<F> {
     idx: usize,
-    cm: f64,
+    cm: F,
     tw: usize,
     fail: Vec<(usize, u64, u64)>,
 }
-struct MockM {
-    cm: f64,
+struct MockM<F> {
+    cm: F,
     s: u64,
     tw: usize,
 }
 fn mock_state(rec_sum: f64, tgt_sum: f64) -> u64 {
     (rec_sum + 3.0 * tgt_sum) as u64
 }
-impl MockP {
-    fn fit_on(&self, rec_sum: f64, tgt_sum: f64) -> Result<MockM, Error> {
+/// sum of integer tags, exact in f64
+fn sum64<F: Fl, S: Data<Elem = F>, D: Dimension>(a: &ArrayBase<S, D>) -> f64 {
+    a.iter().map(|x| x.to64()).sum::<f64>()
+}
+impl<F: Fl> MockP<F> {
+    fn fit_on(&self, rec_sum: f64, tgt_sum: f64) -> Result<MockM<F>, Error> {
         let s = mock_state(rec_sum, tgt_sum);
         for (m, st, id) in &self.fail {
             if *m == self.idx && *st == s {
@@ -285,71 +454,73 @@ impl MockP {
         Ok(MockM { cm: self.cm, s, tw: self.tw })
     }
 }
-impl<'a> Fit<ArrayView2<'a, f64>, ArrayView1<'a, f64>, Error> for MockP {
-    type Object = MockM;
-    fn fit(&self, d: &DatasetBase<ArrayView2<'a, f64>, ArrayView1<'a, f64>>) -> Result<MockM, Error> {
-        self.fit_on(d.records().iter().sum::<f64>(), d.targets().iter().sum::<f64>())
+impl<'a, F: Fl> Fit<ArrayView2<'a, F>, ArrayView1<'a, F>, Error> for MockP<F> {
+    type Object = MockM<F>;
+    fn fit(&self, d: &DatasetBase<ArrayView2<'a, F>, ArrayView1<'a, F>>) -> Result<MockM<F>, Error> {
+        self.fit_on(sum64(d.records()), sum64(d.targets()))
     }
 }
-impl<'a> Fit<ArrayView2<'a, f64>, ArrayView2<'a, f64>, Error> for MockP {
-    type Object = MockM;
-    fn fit(&self, d: &DatasetBase<ArrayView2<'a, f64>, ArrayView2<'a, f64>>) -> Result<MockM, Error> {
-        self.fit_on(d.records().iter().sum::<f64>(), d.targets().iter().sum::<f64>())
+impl<'a, F: Fl> Fit<ArrayView2<'a, F>, ArrayView2<'a, F>, Error> for MockP<F> {
+    type Object = MockM<F>;
+    fn fit(&self, d: &DatasetBase<ArrayView2<'a, F>, ArrayView2<'a, F>>) -> Result<MockM<F>, Error> {
+        self.fit_on(sum64(d.records()), sum64(d.targets()))
     }
 }
-fn mock_base(s: u64, cm: f64, r0: f64) -> f64 {
-    (s as f64) * cm + r0
+fn mock_base<F: Fl>(s: u64, cm: F, r0: F) -> F {
+    F::of_u64(s) * cm + r0
 }
-impl<'b> PredictInplace<ArrayView2<'b, f64>, Array1<f64>> for MockM {
-    fn predict_inplace<'a>(&'a self, x: &'a ArrayView2<'b, f64>, y: &mut Array1<f64>) {
+impl<'b, F: Fl> PredictInplace<ArrayView2<'b, F>, Array1<F>> for MockM<F> {
+    fn predict_inplace<'a>(&'a self, x: &'a ArrayView2<'b, F>, y: &mut Array1<F>) {
         for j in 0..x.nrows() {
-            y[j] = mock_base(self.s, self.cm, x[[j, 0]]) + 0.0;
+            y[j] = mock_base(self.s, self.cm, x[[j, 0]]) + F::of64(0.0);
         }
     }
-    fn default_target(&self, x: &ArrayView2<'b, f64>) -> Array1<f64> {
+    fn default_target(&self, x: &ArrayView2<'b, F>) -> Array1<F> {
         Array1::zeros(x.nrows())
     }
 }
-impl<'b> PredictInplace<ArrayView2<'b, f64>, Array2<f64>> for MockM {
-    fn predict_inplace<'a>(&'a self, x: &'a ArrayView2<'b, f64>, y: &mut Array2<f64>) {
+impl<'b, F: Fl> PredictInplace<ArrayView2<'b, F>, Array2<F>> for MockM<F> {
+    fn predict_inplace<'a>(&'a self, x: &'a ArrayView2<'b, F>, y: &mut Array2<F>) {
         for j in 0..x.nrows() {
             let base = mock_base(self.s, self.cm, x[[j, 0]]);
             for c in 0..self.tw {
-                y[[j, c]] = base + c as f64;
+                y[[j, c]] = base + F::of_u64(2 * c as u64); // columns get different scores
             }
         }
     }
-    fn default_target(&self, x: &ArrayView2<'b, f64>) -> Array2<f64> {
+    fn default_target(&self, x: &ArrayView2<'b, F>) -> Array2<F> {
         Array2::zeros((x.nrows(), self.tw))
     }
 }
-fn eval_fail(spec: &CvSpec, p00: f64) -> Option<Error> {
+fn eval_fail<F: Fl>(spec: &CvSpec, p00: F) -> Option<Error> {
     for (v, id) in &spec.fail_eval {
-        if v.to_bits() == p00.to_bits() {
+        if v.to_bits() == p00.to64().to_bits() {
             return Some(Error::Parameters(format!("E{}", id)));
         }
     }
     None
 }
-fn eval1(spec: &CvSpec, pred: &Array1<f64>, truth: &ArrayView1<f64>) -> Result<f64, Error> {
+fn eval1<F: Fl>(spec: &CvSpec, pred: &Array1<F>, truth: &ArrayView1<F>) -> Result<F, Error> {
     if let Some(e) = eval_fail(spec, pred[0]) {
         return Err(e);
     }
-    let mut acc = 0.0f64;
+    let q = F::of64(spec.q);
+    let mut acc = F::of64(0.0);
     for j in 0..pred.len() {
-        acc = acc + (pred[j] - truth[j]) * spec.q;
+        acc = acc + (pred[j] - truth[j]) * q;
     }
     Ok(acc)
 }
-fn eval2(spec: &CvSpec, pred: &Array2<f64>, truth: &ArrayView2<f64>) -> Result<Array1<f64>, Error> {
+fn eval2<F: Fl>(spec: &CvSpec, pred: &Array2<F>, truth: &ArrayView2<F>) -> Result<Array1<F>, Error> {
     if let Some(e) = eval_fail(spec, pred[[0, 0]]) {
         return Err(e);
     }
+    let q = F::of64(spec.q);
     let mut out = Array1::zeros(pred.ncols());
     for c in 0..pred.ncols() {
-        let mut acc = 0.0f64;
+        let mut acc = F::of64(0.0);
         for j in 0..pred.nrows() {
-            acc = acc + (pred[[j, c]] - truth[[j, c]]) * spec.q;
+            acc = acc + (pred[[j, c]] - truth[[j, c]]) * q;
         }
         out[c] = acc;
     }
@@ -374,71 +545,98 @@ fn err_id(e: &Error) -> u64 {
         _ => 999_999,
     }
 }
-fn params_of(d: &DataSet, spec: &CvSpec) -> Vec<MockP> {
-    spec.cms.iter().enumerate().map(|(i, c)| MockP { idx: i, cm: *c, tw: d.tw, fail: spec.fail_fit.clone() }).collect()
+fn params_of<F: Fl>(d: &DataSet, spec: &CvSpec) -> Vec<MockP<F>> {
+    spec.cms.iter().enumerate().map(|(i, c)| MockP { idx: i, cm: F::of64(*c), tw: d.tw, fail: spec.fail_fit.clone() }).collect()
 }
-fn conv_cv<Dm: Dimension>(r: Result<Array<f64, Dm>, Error>) -> CvRes {
+fn conv_cv<F: Fl, Dm: Dimension>(r: Result<Array<F, Dm>, Error>) -> CvRes {
     match r {
         Ok(a) => CvRes::Ok(arr_of(&a)),
         Err(e) => CvRes::Err(err_id(&e)),
     }
 }
 
-fn cv_call1<D, S>(ds: &mut DatasetBase<ArrayBase<D, Ix2>, ArrayBase<S, Ix1>>, k: usize, params: &[MockP], spec: &CvSpec, single: bool) -> CvRes
-where
-    D: ndarray::DataMut<Elem = f64>,
-    S: ndarray::DataMut<Elem = f64>,
-{
-    if single {
-        conv_cv(ds.cross_validate_single(k, params, |p, t| eval1(spec, p, t)))
-    } else {
-        conv_cv(ds.cross_validate(k, params, |p, t| eval1(spec, p, t).map(arr0)))
+/// layout 0: owned arrays; otherwise a mutable row-range view of a larger array
+fn run_cv<F: Fl, I: TD>(d: &DataSet, k: usize, spec: &CvSpec, layout: usize, single: bool) -> CvOut {
+    let params = params_of::<F>(d, spec);
+    let r = guarded(AssertUnwindSafe(|| match layout {
+        0 => {
+            let mut ds = DatasetBase::new(d.rec_owned::<F>(), d.tgt_owned::<F, I>());
+            let res = I::cv_call(&mut ds, k, &params, spec, single);
+            (res, flat64(ds.records()), flat64(ds.targets()), true)
+        }
+        _ => {
+            let (mut pr, mut pt) = (d.rec_range_parent::<F>(), d.tgt_range_parent::<F, I>());
+            let res = {
+                let rv = pr.slice_axis_mut(Axis(0), Slice::from(2..2 + d.n));
+                let tv = pt.slice_axis_mut(Axis(0), Slice::from(2..2 + d.n));
+                let mut ds = DatasetBase::new(rv, tv);
+                I::cv_call(&mut ds, k, &params, spec, single)
+            };
+            let ok = d.range_outside_ok(&pr, &pt);
+            (res, flat64(&pr.slice_axis(Axis(0), Slice::from(2..2 + d.n))), flat64(&pt.slice_axis(Axis(0), Slice::from(2..2 + d.n))), ok)
+        }
+    }));
+    match r {
+        Ok((res, rec, tgt, ok)) => CvOut { res, rec, tgt, outside_ok: ok },
+        Err(_) => CvOut { res: CvRes::Panic, rec: vec![], tgt: vec![], outside_ok: true },
     }
 }
-fn cv_call2<D, S>(ds: &mut DatasetBase<ArrayBase<D, Ix2>, ArrayBase<S, Ix2>>, k: usize, params: &[MockP], spec: &CvSpec, _single: bool) -> CvRes
-where
-    D: ndarray::DataMut<Elem = f64>,
-    S: ndarray::DataMut<Elem = f64>,
-{
-    conv_cv(ds.cross_validate(k, params, |p, t| eval2(spec, p, t)))
-}
 
-macro_rules! cv_runner {
-    ($name:ident, $I:ty, $call:ident) => {
-        fn $name(d: &DataSet, k: usize, spec: &CvSpec, layout: usize, single: bool) -> CvOut {
-            let params = params_of(d, spec);
-            let r = guarded(AssertUnwindSafe(|| match layout {
-                0 => {
-                    let mut ds = DatasetBase::new(d.rec_owned(), d.tgt_owned::<$I>());
-                    let res = $call(&mut ds, k, &params, spec, single);
-                    (res, ds.records().iter().cloned().collect::<Vec<f64>>(), ds.targets().iter().cloned().collect::<Vec<f64>>(), true)
-                }
-                _ => {
-                    let (mut pr, mut pt) = (d.rec_range_parent(), d.tgt_range_parent::<$I>());
-                    let res = {
-                        let rv = pr.slice_axis_mut(Axis(0), Slice::from(2..2 + d.n));
-                        let tv = pt.slice_axis_mut(Axis(0), Slice::from(2..2 + d.n));
-                        let mut ds = DatasetBase::new(rv, tv);
-                        $call(&mut ds, k, &params, spec, single)
-                    };
-                    let ok = d.range_outside_ok(&pr, &pt);
-                    (
-                        res,
-                        pr.slice_axis(Axis(0), Slice::from(2..2 + d.n)).iter().cloned().collect(),
-                        pt.slice_axis(Axis(0), Slice::from(2..2 + d.n)).iter().cloned().collect(),
-                        ok,
-                    )
-                }
-            }));
-            match r {
-                Ok((res, rec, tgt, ok)) => CvOut { res, rec, tgt, outside_ok: ok },
-                Err(_) => CvOut { res: CvRes::Panic, rec: vec![], tgt: vec![], outside_ok: true },
+// ---------------------------------------------------------------------------------------------
+// iter_fold / cross_validate on a dataset in a given pair of storage layouts
+struct LayRun {
+    rkind: usize,
+    tkind: usize,
+    std: bool, // ndarray's own is_standard_layout() of both views (statistics only; Coq decides from the strides)
+    rdesc: Desc,
+    rpar: Vec<f64>,
+    tdesc: Desc,
+    tpar: Vec<f64>,
+    ifold: Option<(IfOut, Vec<f64>, Vec<f64>)>, // None = panic; else result and both parent buffers afterwards
+    cv: Option<(CvSpec, bool, CvOut, Option<(Vec<f64>, Vec<f64>)>)>,
+    panic_dirty: bool, // a panicking call left a parent buffer modified
+}
+fn run_lay<I: TD>(d: &DataSet, k: usize, rkind: usize, tkind: usize, cv: Option<(CvSpec, bool)>) -> LayRun {
+    let tkind = I::tkind(tkind);
+    let mut pr = parent2(&d.recs, d.n, d.w, rkind);
+    let mut pt = I::tparent(&d.tgts, d.n, d.tw, tkind);
+    let (rpar, tpar) = (mem(&pr), mem(&pt));
+    let (rbase, tbase) = (pr.as_slice_memory_order().unwrap().as_ptr(), pt.as_slice_memory_order().unwrap().as_ptr());
+    let (rdesc, tdesc, std) = {
+        let rv = view2(&mut pr, d.n, d.w, rkind);
+        let tv = I::tview(&mut pt, d.n, d.tw, tkind);
+        (describe(rbase, &rv), describe(tbase, &tv), rv.is_standard_layout() && tv.is_standard_layout())
+    };
+    let r = guarded(AssertUnwindSafe(|| {
+        let rv = view2(&mut pr, d.n, d.w, rkind);
+        let tv = I::tview(&mut pt, d.n, d.tw, tkind);
+        let mut ds = DatasetBase::new(rv, tv);
+        let items = iter_fold_on(&mut ds, k);
+        (items, flat64(ds.records()), flat64(ds.targets()))
+    }));
+    let mut panic_dirty = r.is_err() && (mem(&pr) != rpar || mem(&pt) != tpar);
+    let ifold = r.ok().map(|(items, rec, tgt)| (IfOut { items, rec, tgt, outside_ok: true }, mem(&pr), mem(&pt)));
+    let cv = cv.map(|(spec, single)| {
+        let mut pr = parent2(&d.recs, d.n, d.w, rkind);
+        let mut pt = I::tparent(&d.tgts, d.n, d.tw, tkind);
+        let params = params_of::<f64>(d, &spec);
+        let r = guarded(AssertUnwindSafe(|| {
+            let rv = view2(&mut pr, d.n, d.w, rkind);
+            let tv = I::tview(&mut pt, d.n, d.tw, tkind);
+            let mut ds = DatasetBase::new(rv, tv);
+            let res = I::cv_call(&mut ds, k, &params, &spec, single);
+            (res, flat64(ds.records()), flat64(ds.targets()))
+        }));
+        match r {
+            Ok((res, rec, tgt)) => (spec, single, CvOut { res, rec, tgt, outside_ok: true }, Some((mem(&pr), mem(&pt)))),
+            Err(_) => {
+                panic_dirty |= mem(&pr) != rpar || mem(&pt) != tpar;
+                (spec, single, CvOut { res: CvRes::Panic, rec: vec![], tgt: vec![], outside_ok: true }, None)
             }
         }
-    };
+    });
+    LayRun { rkind, tkind, std, rdesc, rpar, tdesc, tpar, ifold, cv, panic_dirty }
 }
-cv_runner!(run_cv1, Ix1, cv_call1);
-cv_runner!(run_cv2, Ix2, cv_call2);
 
 // ---------------------------------------------------------------------------------------------
 // reference (Rust side): consecutive blocks and complements on row indices
@@ -459,8 +657,8 @@ fn ref_state(d: &DataSet, fs: usize, i: usize) -> u64 {
     let ts: f64 = rows_flat(&d.tgts, d.tw, (0..d.n).filter(|r| !block_rows(d.n, fs, i).contains(r))).iter().sum();
     mock_state(rs, ts)
 }
-fn ref_p00(d: &DataSet, fs: usize, i: usize, cm: f64) -> f64 {
-    mock_base(ref_state(d, fs, i), cm, d.recs[i * fs * d.w]) + 0.0
+fn ref_p00<F: Fl>(d: &DataSet, fs: usize, i: usize, cm: f64) -> f64 {
+    (mock_base::<F>(ref_state(d, fs, i), F::of64(cm), F::of64(d.recs[i * fs * d.w])) + F::of64(0.0)).to64()
 }
 /// reference scores (fold-major mean in the implementation's accumulation order)
 fn ref_cv(d: &DataSet, k: usize, spec: &CvSpec) -> Vec<f64> {
@@ -473,7 +671,7 @@ fn ref_cv(d: &DataSet, k: usize, spec: &CvSpec) -> Vec<f64> {
                 let s = ref_state(d, fs, i);
                 let mut acc = 0.0f64;
                 for r in block_rows(d.n, fs, i) {
-                    let p = mock_base(s, *cm, d.recs[r * d.w]) + c as f64;
+                    let p = mock_base(s, *cm, d.recs[r * d.w]) + (2 * c) as f64;
                     acc = acc + (p - d.tgts[r * d.tw + c]) * spec.q;
                 }
                 total = total + (0.0 + acc);
@@ -510,7 +708,7 @@ fn rust_oracle<I: TD>(d: &DataSet, k: usize, rng: &mut Sm64) -> (u64, String) {
         sorted_pairs(&Arr { rows: d.n, cols: d.w, data: d.recs.clone() }, &Arr { rows: d.n, cols: d.tw, data: d.tgts.clone() }, &e, &et).unwrap()
     };
     // fold
-    match run_fold::<I>(d, k, rng.below(4) as usize) {
+    match run_fold::<I>(d, k, rng.below(FOLD_LAYOUTS.len() as u64) as usize) {
         None => { code |= 1; what.push_str("fold panicked; "); }
         Some(v) => {
             if v.len() != k { code |= 2; what.push_str("fold count; "); }
@@ -538,7 +736,7 @@ fn rust_oracle<I: TD>(d: &DataSet, k: usize, rng: &mut Sm64) -> (u64, String) {
     let spec = CvSpec { cms: (0..1 + rng.below(3)).map(|_| 0.1 + rng.unit()).collect(), q: 0.1 + rng.unit(), fail_fit: vec![], fail_eval: vec![] };
     let layout = rng.below(2) as usize;
     let single = rng.chance(0.5);
-    let o = if I::IS1 { run_cv1(d, k, &spec, layout, single) } else { run_cv2(d, k, &spec, layout, single) };
+    let o = run_cv::<f64, I>(d, k, &spec, layout, single);
     match o.res {
         CvRes::Panic => { code |= 16384; what.push_str("cross_validate panicked; "); }
         CvRes::Err(_) => { code |= 4096; what.push_str("cross_validate returned an error although nothing fails; "); }
@@ -574,22 +772,64 @@ fn ifold_term(o: &Option<IfOut>) -> String {
 fn chunks_term(size: usize, o: &Option<Vec<[Arr; 2]>>) -> String {
     format!("({}, {})", cn(size as u64), copt(o.as_ref().map(|v| clist(v, |p| format!("({}, {})", arr_term(&p[0]), arr_term(&p[1]))))))
 }
-fn cv_term(spec: &CvSpec, o: &CvOut) -> String {
+fn lit<F: Fl>(x: f64) -> String {
+    if F::IS32 { format!("(b32_of_bits {})", cz((x as f32).to_bits() as i64)) } else { sf64(x) }
+}
+fn litvec<F: Fl>(xs: &[f64]) -> String {
+    if F::IS32 { format!("(B32L {})", clist(xs, |x| cz((*x as f32).to_bits() as i64))) } else { cvec64(xs) }
+}
+fn cv_term<F: Fl>(spec: &CvSpec, o: &CvOut) -> String {
     let res = match &o.res {
-        CvRes::Ok(a) => format!("(CvOk {} {} {})", cn(a.rows as u64), cn(a.cols as u64), cvec64(&a.data)),
+        CvRes::Ok(a) => format!("(CvOk {} {} {})", cn(a.rows as u64), cn(a.cols as u64), litvec::<F>(&a.data)),
         CvRes::Err(id) => format!("(CvErr {})", cn(*id)),
         CvRes::Panic => "CvPanic".to_string(),
     };
     format!(
         "{{| cv_cm := {}; cv_q := {}; cv_fail_fit := {}; cv_fail_eval := {}; cv_out := {}; cv_rec := {}; cv_tgt := {}; cv_outside_ok := {} |}}",
-        cvec64(&spec.cms),
-        sf64(spec.q),
+        litvec::<F>(&spec.cms),
+        lit::<F>(spec.q),
         clist(&spec.fail_fit, |(m, s, id)| format!("({}, {}, {})", cn(*m as u64), cn(*s), cn(*id))),
-        clist(&spec.fail_eval, |(v, id)| format!("({}, {})", sf64(*v), cn(*id))),
+        clist(&spec.fail_eval, |(v, id)| format!("({}, {})", lit::<F>(*v), cn(*id))),
         res,
         ctags(&o.rec),
         ctags(&o.tgt),
         cbool(o.outside_ok)
+    )
+}
+fn desc_term(x: &Desc) -> String {
+    format!("{{| lv_off := {}; lv_s0 := {}; lv_s1 := {} |}}", cn(x.off as u64), cz(x.s0 as i64), cz(x.s1 as i64))
+}
+fn lay_term(l: &LayRun) -> String {
+    let ifold = match &l.ifold {
+        None => "None".to_string(),
+        Some((o, pr, pt)) => format!(
+            "(Some ({{| ir_items := {}; ir_rec := {}; ir_tgt := {}; ir_outside_ok := true |}}, ({}, {})))",
+            clist(&o.items, |p| format!("II {} {} {} {}", arr_term(&p[0]), arr_term(&p[1]), arr_term(&p[2]), arr_term(&p[3]))),
+            ctags(&o.rec),
+            ctags(&o.tgt),
+            ctags(pr),
+            ctags(pt)
+        ),
+    };
+    let cv = match &l.cv {
+        None => "[]".to_string(),
+        Some((spec, _, o, after)) => format!(
+            "[({}, {})]",
+            cv_term::<f64>(spec, o),
+            match after {
+                None => "None".to_string(),
+                Some((pr, pt)) => format!("(Some ({}, {}))", ctags(pr), ctags(pt)),
+            }
+        ),
+    };
+    format!(
+        "{{| lc_rv := {}; lc_rpar := {}; lc_tv := {}; lc_tpar := {}; lc_ifold := [{}]; lc_cv := {} |}}",
+        desc_term(&l.rdesc),
+        ctags(&l.rpar),
+        desc_term(&l.tdesc),
+        ctags(&l.tpar),
+        ifold,
+        cv
     )
 }
 
@@ -598,12 +838,15 @@ struct Plan {
     ifold_layouts: Vec<usize>,
     chunk_sizes: Vec<usize>,
     cvs: Vec<(CvSpec, usize, bool)>,
+    cvs32: Vec<(CvSpec, usize, bool)>,
+    /// (records layout kind, targets layout kind, cross-validation to run there)
+    lays: Vec<(usize, usize, Option<(CvSpec, bool)>)>,
 }
 
-fn gen_cv_spec(d: &DataSet, k: usize, rng: &mut Sm64, failing: bool) -> CvSpec {
+fn gen_cv_spec<F: Fl>(d: &DataSet, k: usize, rng: &mut Sm64, failing: bool) -> CvSpec {
     let nm = 1 + rng.below(3) as usize;
-    let cms: Vec<f64> = (0..nm).map(|_| 0.1 + rng.unit()).collect();
-    let q = 0.1 + rng.unit();
+    let cms: Vec<f64> = (0..nm).map(|_| F::round64(0.1 + rng.unit())).collect();
+    let q = F::round64(0.1 + rng.unit());
     let mut spec = CvSpec { cms, q, fail_fit: vec![], fail_eval: vec![] };
     if failing && k >= 1 && k <= d.n {
         let fs = d.n / k;
@@ -621,7 +864,7 @@ fn gen_cv_spec(d: &DataSet, k: usize, rng: &mut Sm64, failing: bool) -> CvSpec {
         for _ in 0..ne {
             let i = if rng.chance(0.5) { anchor_fold } else { rng.below(k as u64) as usize };
             let m = rng.below(nm as u64) as usize;
-            spec.fail_eval.push((ref_p00(d, fs, i, spec.cms[m]), id));
+            spec.fail_eval.push((ref_p00::<F>(d, fs, i, spec.cms[m]), id));
             id += 1;
         }
     }
@@ -646,6 +889,10 @@ fn special_ks(n: usize, rng: &mut Sm64) -> Vec<usize> {
     v
 }
 
+fn has_failures(s: &CvSpec) -> bool {
+    !s.fail_fit.is_empty() || !s.fail_eval.is_empty()
+}
+
 fn emit(out: &mut Out, id: u64, d: &DataSet, k: usize, plan: &Plan, stream: &str) {
     if !out.wanted(id) {
         return;
@@ -660,12 +907,23 @@ fn emit(out: &mut Out, id: u64, d: &DataSet, k: usize, plan: &Plan, stream: &str
         .enumerate()
         .map(|(j, s)| chunks_term(*s, &if is1 { run_chunks::<Ix1>(d, *s, j % 2 == 1) } else { run_chunks::<Ix2>(d, *s, j % 2 == 1) }))
         .collect();
-    let cvs: Vec<String> =
-        plan.cvs.iter().map(|(spec, l, single)| cv_term(spec, &if is1 { run_cv1(d, k, spec, *l, *single) } else { run_cv2(d, k, spec, *l, *single) })).collect();
+    let cvs: Vec<String> = plan
+        .cvs
+        .iter()
+        .map(|(spec, l, single)| cv_term::<f64>(spec, &if is1 { run_cv::<f64, Ix1>(d, k, spec, *l, *single) } else { run_cv::<f64, Ix2>(d, k, spec, *l, *single) }))
+        .collect();
+    let cvs32: Vec<String> = plan
+        .cvs32
+        .iter()
+        .map(|(spec, l, single)| cv_term::<f32>(spec, &if is1 { run_cv::<f32, Ix1>(d, k, spec, *l, *single) } else { run_cv::<f32, Ix2>(d, k, spec, *l, *single) }))
+        .collect();
+    let layruns: Vec<LayRun> =
+        plan.lays.iter().map(|(rk, tk, cv)| if is1 { run_lay::<Ix1>(d, k, *rk, *tk, cv.clone()) } else { run_lay::<Ix2>(d, k, *rk, *tk, cv.clone()) }).collect();
+    let lays: Vec<String> = layruns.iter().map(lay_term).collect();
     let coq = format!(
-        "{{| c_id := {}; c_n := {}; c_w := {}; c_tdim := {}; c_k := {}; c_recs := {}; c_tgts := {}; c_fold := [{}]; c_ifold := [{}]; c_chunks := [{}]; c_cv := [{}] |}}",
+        "{{| c_id := {}; c_n := {}; c_w := {}; c_tdim := {}; c_k := {}; c_recs := {}; c_tgts := {}; c_fold := [{}]; c_ifold := [{}]; c_chunks := [{}]; c_cv := [{}]; c_cv32 := [{}]; c_lay := [{}] |}}",
         cn(id), cn(d.n as u64), cn(d.w as u64), cn(d.tdim as u64), cn(k as u64), ctags(&d.recs), ctags(&d.tgts),
-        folds.join("; "), ifolds.join("; "), chunks.join("; "), cvs.join("; ")
+        folds.join("; "), ifolds.join("; "), chunks.join("; "), cvs.join("; "), cvs32.join("; "), lays.join("; ")
     );
     let in_domain = k >= 2 && k <= d.n;
     let mut tags: Vec<String> = vec![format!("stream_{}", stream)];
@@ -673,14 +931,29 @@ fn emit(out: &mut Out, id: u64, d: &DataSet, k: usize, plan: &Plan, stream: &str
     tags.push(if !in_domain { "k_out_of_domain".into() } else if d.n % k == 0 { "k_divides_n".into() } else { "k_does_not_divide_n".into() });
     for l in &plan.fold_layouts { tags.push(format!("fold_layout_{}", FOLD_LAYOUTS[*l])); }
     for l in &plan.ifold_layouts { tags.push(format!("iter_fold_layout_{}", MUT_LAYOUTS[*l])); }
-    if plan.cvs.iter().any(|(s, _, _)| !s.fail_fit.is_empty() || !s.fail_eval.is_empty()) { tags.push("cv_injected_failures".into()); }
+    for l in &layruns {
+        tags.push(format!("layout_records_{}", KINDS[l.rkind]));
+        tags.push(format!("layout_targets_{}", KINDS[l.tkind]));
+    }
+    if !plan.cvs32.is_empty() { tags.push("cv_f32".into()); }
+    if plan.cvs.iter().chain(plan.cvs32.iter()).any(|(s, _, _)| has_failures(s)) { tags.push("cv_injected_failures".into()); }
+    tags.sort();
+    tags.dedup();
     let desc = format!(
-        "{{\"n\": {}, \"k\": {}, \"features\": {}, \"target_dim\": {}, \"target_columns\": {}, \"records\": \"row-major tags {}..\", \"targets\": \"row-major tags {}..\", \"fold_layouts\": {:?}, \"iter_fold_layouts\": {:?}, \"chunk_sizes\": {:?}, \"cv\": {}}}",
+        "{{\"n\": {}, \"k\": {}, \"features\": {}, \"target_dim\": {}, \"target_columns\": {}, \"records\": \"row-major tags {}..\", \"targets\": \"row-major tags {}..\", \"fold_layouts\": {:?}, \"iter_fold_layouts\": {:?}, \"chunk_sizes\": {:?}, \"cv\": {}, \"cv_f32\": {}, \"storage_layouts\": {}}}",
         d.n, k, d.w, if is1 { 1 } else { 2 }, d.tw, d.recs[0], d.tgts[0],
         plan.fold_layouts.iter().map(|l| FOLD_LAYOUTS[*l]).collect::<Vec<_>>(),
         plan.ifold_layouts.iter().map(|l| MUT_LAYOUTS[*l]).collect::<Vec<_>>(),
         plan.chunk_sizes,
-        jstr(&format!("{:?}", plan.cvs.iter().map(|(s, l, sg)| (s.cms.len(), &s.fail_fit, &s.fail_eval, *l, *sg)).collect::<Vec<_>>()))
+        jstr(&format!("{:?}", plan.cvs.iter().map(|(s, l, sg)| (s.cms.len(), &s.fail_fit, &s.fail_eval, *l, *sg)).collect::<Vec<_>>())),
+        jstr(&format!("{:?}", plan.cvs32.iter().map(|(s, l, sg)| (s.cms.len(), &s.fail_fit, &s.fail_eval, *l, *sg)).collect::<Vec<_>>())),
+        jstr(&format!(
+            "{:?}",
+            layruns
+                .iter()
+                .map(|l| (KINDS[l.rkind], (l.rdesc.off, l.rdesc.s0, l.rdesc.s1), KINDS[l.tkind], (l.tdesc.off, l.tdesc.s0, l.tdesc.s1), if l.ifold.is_some() { "returned" } else { "panicked" }))
+                .collect::<Vec<_>>()
+        ))
     );
     out.bump(&format!("stream_{}", stream));
     out.bump(&format!("targets_{}", match d.tdim { 0 => "ix1".to_string(), t => format!("2d_{}col", t) }));
@@ -688,9 +961,38 @@ fn emit(out: &mut Out, id: u64, d: &DataSet, k: usize, plan: &Plan, stream: &str
     out.bump(if !in_domain { "k_out_of_domain" } else if d.n % k == 0 { "k_divides_n" } else { "k_does_not_divide_n" });
     out.bump(&format!("n_{}", if d.n <= 8 { "le8" } else if d.n <= 24 { "9to24" } else if d.n <= 64 { "25to64" } else { "gt64" }));
     out.bump_by("cv_runs", plan.cvs.len() as u64);
-    out.bump_by("cv_runs_with_injected_failures", plan.cvs.iter().filter(|(s, _, _)| !s.fail_fit.is_empty() || !s.fail_eval.is_empty()).count() as u64);
+    out.bump_by("cv_runs_f32", plan.cvs32.len() as u64);
+    out.bump_by("cv_runs_with_injected_failures", plan.cvs.iter().chain(plan.cvs32.iter()).filter(|(s, _, _)| has_failures(s)).count() as u64);
+    for l in &plan.fold_layouts { out.bump(&format!("fold_on_{}", FOLD_LAYOUTS[*l])); }
+    for l in &layruns {
+        out.bump("layout_runs");
+        out.bump(&format!("layout_records_{}", KINDS[l.rkind]));
+        out.bump(&format!("layout_targets_{}{}", KINDS[l.tkind], if is1 { "_1d" } else { "" }));
+        if k >= 1 && k <= d.n {
+            let special = |kind: usize| kind != 0 && kind != 5;
+            out.bump(if !l.std {
+                "layout_runs_not_standard"
+            } else if special(l.rkind) || special(l.tkind) {
+                "layout_runs_standard_only_because_an_axis_has_length_1"
+            } else {
+                "layout_runs_standard"
+            });
+            if l.ifold.is_none() { out.bump("layout_runs_iter_fold_panicked"); }
+        }
+        if l.panic_dirty {
+            out.rust_fail(id, 256, &tags.iter().map(|s| s.as_str()).collect::<Vec<_>>(), "a panicking iter_fold / cross_validate left a parent buffer modified", &desc);
+        }
+    }
     let key = if in_domain && d.n >= 3 {
-        Some(fnv(format!("{}/{}/{}/{}/{:?}/{:?}", d.n, k, d.w, d.tdim, plan.fold_layouts, plan.ifold_layouts).as_bytes()))
+        Some(fnv(
+            format!(
+                "{}/{}/{}/{}/{:?}/{:?}/{:?}/{}",
+                d.n, k, d.w, d.tdim, plan.fold_layouts, plan.ifold_layouts,
+                layruns.iter().map(|l| (l.rkind, l.tkind)).collect::<Vec<_>>(),
+                plan.cvs32.len()
+            )
+            .as_bytes(),
+        ))
     } else {
         None
     };
@@ -705,6 +1007,7 @@ fn main() {
     let mut out = Out::new(&args.out, args.shards, "C01.Corr", "case", args.only);
     let mut id: u64 = 0;
     let combos: Vec<(usize, usize)> = (1..=3).flat_map(|w| (0..=3).map(move |t| (w, t))).collect();
+    let nfl = FOLD_LAYOUTS.len() as u64;
 
     // (a) exhaustive small: every (n, k) with 2 <= k <= n <= nmax
     let nmax = if thorough { 32 } else { 24 };
@@ -721,18 +1024,33 @@ fn main() {
                 let mut r = rng.fork();
                 let d = DataSet::new(n, w, tdim, &mut r);
                 let fs = n / k;
+                let cvs = vec![
+                    (gen_cv_spec::<f64>(&d, k, &mut r, false), (id % 2) as usize, id % 3 == 0),
+                    (gen_cv_spec::<f64>(&d, k, &mut r, true), ((id + 1) % 2) as usize, id % 3 == 1),
+                ];
+                // f32 datasets with f32 scores: every third case (two thirds of them in the thorough tier)
+                let cvs32 = if (thorough && id % 2 == 0) || id % 3 == 2 || n <= 4 {
+                    vec![(gen_cv_spec::<f32>(&d, k, &mut r, (id / 3) % 2 == 1), ((id / 3 + id / 6) % 2) as usize, (id / 3) % 3 != 0)]
+                } else {
+                    vec![]
+                };
                 let plan = Plan {
-                    fold_layouts: if n <= 6 { vec![0, 1, 2, 3] } else if n <= 12 || thorough { vec![(id % 4) as usize, ((id + 1 + id / 4) % 4) as usize] } else { vec![((id + id / 4) % 4) as usize] },
+                    fold_layouts: if n <= (if thorough { 4 } else { 6 }) {
+                        (0..FOLD_LAYOUTS.len()).collect()
+                    } else if n <= 12 || thorough {
+                        vec![(id % nfl) as usize, ((id + 1 + id / nfl) % nfl) as usize]
+                    } else {
+                        vec![((id + id / nfl) % nfl) as usize]
+                    },
                     ifold_layouts: if n <= 6 { vec![0, 1, 2] } else { vec![(id % 3) as usize] },
                     chunk_sizes: {
                         let mut v = vec![fs, [1, fs + 1, n, n + 1, 2][(id % 5) as usize]];
                         v.dedup();
                         v
                     },
-                    cvs: vec![
-                        (gen_cv_spec(&d, k, &mut r, false), (id % 2) as usize, id % 3 == 0),
-                        (gen_cv_spec(&d, k, &mut r, true), ((id + 1) % 2) as usize, id % 3 == 1),
-                    ],
+                    cvs,
+                    cvs32,
+                    lays: vec![],
                 };
                 emit(&mut out, id, &d, k, &plan, "exhaustive_small");
                 id += 1;
@@ -743,7 +1061,7 @@ fn main() {
     // (b) structured random: larger n, fold counts around divisors / borders
     let nrandom = if thorough { 300 } else { 80 };
     let (lo, hi) = if thorough { (33, 160) } else { (25, 80) };
-    for _ in 0..nrandom {
+    for j in 0..nrandom {
         let mut r = rng.fork();
         let n = r.range(lo, hi) as usize;
         let ks = special_ks(n, &mut r);
@@ -755,11 +1073,20 @@ fn main() {
         let (w, tdim) = *r.pick(&combos);
         let d = DataSet::new(n, w, tdim, &mut r);
         let fs = n / k;
+        let cvs = vec![(gen_cv_spec::<f64>(&d, k, &mut r, false), r.below(2) as usize, r.chance(0.5)), (gen_cv_spec::<f64>(&d, k, &mut r, true), r.below(2) as usize, r.chance(0.5))];
+        let cvs32 = if j % 4 == 0 {
+            let failing = r.chance(0.3);
+            vec![(gen_cv_spec::<f32>(&d, k, &mut r, failing), r.below(2) as usize, r.chance(0.5))]
+        } else {
+            vec![]
+        };
         let plan = Plan {
-            fold_layouts: vec![r.below(4) as usize],
+            fold_layouts: vec![r.below(nfl) as usize],
             ifold_layouts: vec![r.below(3) as usize],
             chunk_sizes: vec![fs, 1 + r.below(n as u64 + 1) as usize],
-            cvs: vec![(gen_cv_spec(&d, k, &mut r, false), r.below(2) as usize, r.chance(0.5)), (gen_cv_spec(&d, k, &mut r, true), r.below(2) as usize, r.chance(0.5))],
+            cvs,
+            cvs32,
+            lays: vec![],
         };
         emit(&mut out, id, &d, k, &plan, "structured_random");
         id += 1;
@@ -772,13 +1099,65 @@ fn main() {
             let (w, tdim) = combos[(n * 5 + k) % combos.len()];
             let d = DataSet::new(n, w, tdim, &mut r);
             let plan = Plan {
-                fold_layouts: vec![(id % 4) as usize],
+                fold_layouts: vec![(id % nfl) as usize],
                 ifold_layouts: vec![(id % 3) as usize],
                 chunk_sizes: vec![0, n + 1],
-                cvs: vec![(gen_cv_spec(&d, k, &mut r, false), 0, false)],
+                cvs: vec![(gen_cv_spec::<f64>(&d, k, &mut r, false), 0, false)],
+                cvs32: if k == 1 { vec![(gen_cv_spec::<f32>(&d, k, &mut r, false), 0, true)] } else { vec![] },
+                lays: vec![((id % 8) as usize, ((id / 8) % 8) as usize, None)],
             };
             emit(&mut out, id, &d, k, &plan, "malformed_k");
             id += 1;
+        }
+    }
+
+    // (e) storage layouts: iter_fold and cross_validate on every pair (records layout, targets layout) of
+    // c_order / fortran / transposed / row_step2 / col_range / row_range / rows_reversed / cols_reversed
+    // (one-dimensional targets: contiguous / every second cell / range / reversed), described to Coq by the
+    // offset and strides ndarray reports; fold on the same datasets in all its layouts
+    let lay_nmax = if thorough { 12 } else { 8 };
+    let per_case = if thorough { 6 } else { 4 };
+    let mut pair_ctr: usize = 0;
+    for n in 1..=lay_nmax {
+        let mut ks: Vec<usize> = vec![1, 2, 3, n / 2, n - 1, n];
+        ks.retain(|k| *k >= 1 && *k <= n);
+        ks.sort();
+        ks.dedup();
+        for k in ks {
+            for j in 0..3usize {
+                let mut r = rng.fork();
+                let (w, tdim) = combos[(n * 7 + k * 5 + j * 4 + (pair_ctr / 64)) % combos.len()];
+                let d = DataSet::new(n, w, tdim, &mut r);
+                let mut lays = vec![];
+                for _ in 0..per_case {
+                    // every pair in turn; pairs with a standard side come round more often through kinds 0 / 5
+                    let (rk, tk) = (pair_ctr % 8, (pair_ctr / 8) % 8);
+                    pair_ctr += 1;
+                    let failing = pair_ctr % 3 == 0;
+                    let spec = gen_cv_spec::<f64>(&d, k, &mut r, failing);
+                    lays.push((rk, tk, Some((spec, pair_ctr % 2 == 0))));
+                }
+                // two more where the call has to WORK: layouts that are standard outright (contiguous, row
+                // range) and, for single-column shapes, layouts that are standard only because the stride of
+                // a length-1 axis does not count (column-major / transposed / reversed columns)
+                for e in 0..2usize {
+                    let x = pair_ctr + e;
+                    let rk = if d.w == 1 { [1, 2, 7, 5][x % 4] } else { [0, 5][x % 2] };
+                    let tk = if d.tdim == 1 { [2, 7, 1, 0][(x / 2) % 4] } else { [5, 0][(x / 2) % 2] };
+                    let spec = gen_cv_spec::<f64>(&d, k, &mut r, e == 1);
+                    lays.push((rk, tk, Some((spec, e == 0))));
+                }
+                let plan = Plan {
+                    fold_layouts: if k >= 2 { (0..FOLD_LAYOUTS.len()).collect() } else { vec![] },
+                    ifold_layouts: vec![],
+                    chunk_sizes: vec![],
+                    cvs: vec![],
+                    cvs32: vec![],
+                    lays,
+                };
+                emit(&mut out, id, &d, k, &plan, "storage_layouts");
+                id += 1;
+            }
         }
     }
 
@@ -810,5 +1189,5 @@ fn main() {
         id += 1;
     }
 
-    out.finish("identity-tagged datasets (every cell unique); stream (a): every (n, k) with 2 <= k <= n <= nmax for feature counts 1..3 and targets {1-D, 2-D with 1..3 columns} (all 12 combinations for small n, a rotating subset above), each through fold (owned / view / strided view / column-major), iter_fold (owned / mutable view / mutable row-range view of a larger array), sample_chunks and cross_validate(_single) with 1..3 mock models, with and without injected fit / evaluation failures; (b) larger n with fold counts at and next to divisors; (c) k = 0, 1, n+1, n+5; (d) n up to 400 (600) judged by a Rust-side reference. A case is non-trivial when 2 <= k <= n and n >= 3; distinct = distinct (n, k, features, target shape, layouts)");
+    out.finish("identity-tagged datasets (every cell unique); stream (a): every (n, k) with 2 <= k <= n <= nmax for feature counts 1..3 and targets {1-D, 2-D with 1..3 columns} (all 12 combinations for small n, a rotating subset above), each through fold (owned / view / strided view / column-major / transposed / column range / reversed rows / reversed columns), iter_fold (owned / mutable view / mutable row-range view of a larger array), sample_chunks and cross_validate(_single) with 1..3 mock models, with and without injected fit / evaluation failures, on f64 data and (every third case) on f32 data with f32 scores; (b) larger n with fold counts at and next to divisors; (c) k = 0, 1, n+1, n+5; (e) storage layouts: n <= 8 (12), k in {1, 2, 3, n/2, n-1, n}, iter_fold and cross_validate on every pair of records layout x targets layout, described by the offset / strides ndarray reports; (d) n up to 400 (600) judged by a Rust-side reference. A case is non-trivial when 2 <= k <= n and n >= 3; distinct = distinct (n, k, features, target shape, layouts)");
 }
